@@ -1189,6 +1189,10 @@ func genFailingMsgTest(rng *rand.Rand) cCall {
 
 // test calls: pass / fail / bad arguments, with and without messages
 func genTestCall(rng *rand.Rand) cCall {
+	if rng.Intn(6) == 0 {
+		call, _ := genNearSameTest(rng)
+		return call
+	}
 	if rng.Intn(4) == 0 {
 		return genFailingMsgTest(rng)
 	}
@@ -1398,7 +1402,7 @@ func runC13(cfg Config, r *Result) {
 		return
 	}
 	defer model.Close()
-	r.Rule = "a case = a sequence of 1-8 built-in calls (every non-graphics built-in incl. del, plus hsl and clear's argument checks; argument values drawn from boundary classes: empty, non-ASCII (2/3/4-byte), identifier-like and non-identifier map keys, negative, fractional, halves, 2^31, 2^53, 2^63, huge, subnormal, ±Inf, NaN, ±0; formats over every verb/flag/width/precision form incl. malformed ones; histories of conversions for err/errmsg; histories of test outcomes with fail-fast/no-summary, ended by exit/panic) rendered as a real evy program and run on the real evaluator and on the extracted model; compared: structural dump of every result (numbers by bit pattern), err/errmsg after every call, platform effects, class of Eval's result, test totals, the text of the failed-test errors (positions stripped; failing 3- and >=4-argument tests with '%' in the message in every position); plus every documented example of docs/builtins.md and docs/spec.md (exact output) and exit status/stdout/stderr (incl. the failed-test messages) of the real `evy run` binary; non-trivial = at least one call with arguments; distinct = distinct (flags, inputs, calls with argument values)"
+	r.Rule = "a case = a sequence of 1-8 built-in calls (every non-graphics built-in incl. del, plus hsl and clear's argument checks; argument values drawn from boundary classes: empty, non-ASCII (2/3/4-byte), identifier-like and non-identifier map keys, negative, fractional, halves, 2^31, 2^53, 2^63, huge, subnormal, ±Inf, NaN, ±0; formats over every verb/flag/width/precision form incl. malformed ones; histories of conversions for err/errmsg; histories of test outcomes with fail-fast/no-summary, ended by exit/panic; `test want got` on nearly equal composite values: one entry added / removed / renamed / changed / permuted in a map at any nesting depth (maps of maps, arrays of maps, maps of arrays, inside any), an element appended / dropped, in both argument orders, with the number of failed tests also decided by the statement's own sameness) rendered as a real evy program and run on the real evaluator and on the extracted model; compared: structural dump of every result (numbers by bit pattern), err/errmsg after every call, platform effects, class of Eval's result, test totals, the text of the failed-test errors (positions stripped; failing 3- and >=4-argument tests with '%' in the message in every position); plus every documented example of docs/builtins.md and docs/spec.md (exact output) and exit status/stdout/stderr (incl. the failed-test messages) of the real `evy run` binary; non-trivial = at least one call with arguments; distinct = distinct (flags, inputs, calls with argument values)"
 	if cfg.Replay != "" {
 		if c13Replay(cfg.Replay, model, r) {
 			return
@@ -1407,6 +1411,8 @@ func runC13(cfg Config, r *Result) {
 	for _, c := range c13Corpus() {
 		c13Check(c, model, r)
 	}
+	// sameness of composite values in `test`: nearly equal maps / arrays at every depth, both argument orders
+	c13NearSame(cfg, model, r)
 	// built-ins in interaction with the statement they are documented with: `del` "is safe while iterating with a
 	// for ... range loop" (current, earlier and LATER keys, through aliases, with has / len / print in the body), join of
 	// split, sprint of a map being ranged - decided by the evaluator model (coq/Sem.v, which calls Builtins.v)
